@@ -437,6 +437,38 @@ def e_cases(b, rig, r, per_filter):
         finally:
             utils.web.getUrl = saved
             conf.supybot.plugins.ShrinkUrl.outFilter.setValue(False)
+    # a user-controlled reply cut by a partial send(), then ECONNRESET, then the scheduled reconnect:
+    # nothing of the old connection may be the first thing written on the new one
+    for _ in range(max(2, per_filter // 2)):
+        text = 'echo ' + r.choice(['\x02x\x02 ', 'é', 'QUIT :x ', 'NICK evil ']) * r.randint(5, 60)
+        old = rig.sock
+        old.script += [('s', r.randint(1, 30)), ('e', 104)]
+        try:
+            signal.alarm(5)
+            try:
+                rig.irc.feedMsg(b.ircmsgs.privmsg('#chan', '@' + text, prefix='foo!bar@baz'))
+                for _ in range(3): rig.drivers.run()
+                rig.offset += 100000
+                for _ in range(4): rig.drivers.run()
+            finally:
+                signal.alarm(0)
+        except Alarm:
+            continue
+        n += 1
+        new = rig.sock
+        ok = True; msg = ''
+        if new is old or not rig.d.connected:
+            ok = False; msg = 'after ECONNRESET and the reconnect delay the driver did not reconnect'
+        else:
+            ok, msg = wire_check(new.sent)
+            first = new.sent.split(b'\r\n', 1)[0]
+            if ok and not (first.startswith(b'CAP LS') or first.startswith(b'PASS ') or first.startswith(b'NICK ')):
+                ok = False; msg = 'the new connection starts with %r instead of the registration (CAP LS / NICK / USER): left-over of the reply cut by the partial send()' % first[:80]
+        cases.append(Case({'F': True, 'text': text}, impl=None, oracle_ok=ok, oracle_msg=('%r, send() cut, ECONNRESET, reconnect — ' % text[:60]) + msg if not ok else '',
+                          kind='F-reconnect', tags=('reconnect-after-partial-send',)))
+        lines.append('cut\t0\t')
+        rig.taken = []
+        bot.register_welcome  # (the new connection is unregistered; the sweep only needs the Irc to answer commands)
     # Misc.more / Utilities.let: plain copies
     for text in ['echo ' + 'wörd ' * 400, 'more', 'more', 'let x = "a\\nb" in echo $x', 'let x = ' + 'é' * 300 + ' in echo $x $x']:
         res = invoke(b, rig, text, False)
